@@ -730,3 +730,338 @@ Proof.
     destruct kind; cbv zeta; cbn [dl_parts dl_out dl_writes dl_content map fst combine p_range p];
     (split; [reflexivity|]); intros Hne; try congruence; repeat split.
 Qed.
+
+(** What the request log shows: per planned request its Range and the number
+    of GetObject calls of its task. *)
+Lemma combine_map_self {A B} (f : A -> B) (l : list A) :
+  combine l (map f l) = map (fun x => (x, f x)) l.
+Proof. induction l as [|x l IH]; cbn [map combine]; congruence. Qed.
+
+Lemma manager_dl_parts kind init obj cfg fs rs sched :
+  dl_parts (manager_download kind init obj cfg fs rs sched) =
+  map (fun p => (p_range p, g_requests (part_result obj (c_io_chunk cfg) (c_attempts cfg) p)))
+      (manager_parts obj cfg fs rs).
+Proof.
+  unfold manager_download.
+  destruct kind; cbv zeta; rewrite ?manager_stream; cbn [dl_parts];
+    rewrite combine_map_self, map_map; reflexivity.
+Qed.
+
+(** Attempts: at most num_download_attempts GetObject calls per planned
+    request; a non-retryable error ends the task at once (Retry's theorems). *)
+Theorem manager_attempts obj cfg fs rs p :
+  0 < c_chunk cfg -> 1 <= c_io_chunk cfg -> In p (manager_parts obj cfg fs rs) ->
+  let r := part_result obj (c_io_chunk cfg) (c_attempts cfg) p in
+  Z.of_nat (g_requests r) <= Z.max 0 (c_attempts cfg) /\
+  (forall pre f post, p_faults p = pre ++ f :: post ->
+     Forall (fun g => fires g (p_len p) = true /\ retryable_of g = true) pre ->
+     fires f (p_len p) = true -> retryable_of f = false ->
+     Z.of_nat (length pre) < c_attempts cfg ->
+     g_outcome r = Raised /\ g_requests r = S (length pre)).
+Proof.
+  intros Hc Hio Hp r. split.
+  - apply run_get_attempt_bound. exact Hio.
+  - intros pre f post Ef Hpre Hf Hr Hlen. unfold r, part_result. rewrite Ef.
+    apply run_get_nonretryable; try assumption.
+    pose proof (plan_parts_scripted obj (c_threshold cfg) (c_chunk cfg) fs rs Hc) as Hs.
+    rewrite Forall_forall in Hs. now apply Hs.
+Qed.
+
+(* ------------------------------------------------------------------ *)
+(** * The process-pool worker loop *)
+
+Section PoolStream.
+  Variable io_chunk : Z.
+  Hypothesis Hio : 1 <= io_chunk.
+
+  Lemma pool_stream_spec : forall fuel rest sizes kleft r pos ws e,
+    pool_stream fuel rest sizes kleft r io_chunk pos = (ws, e) ->
+    contiguous pos ws /\
+    exists rem, rest = delivered_bytes ws ++ rem /\
+      (e = AOk -> (length rest < fuel)%nat -> rem = []).
+  Proof.
+    induction fuel as [|f IH]; intros rest sizes kleft r pos ws e Hrun.
+    - cbn [pool_stream] in Hrun. injection Hrun as <- <-. split; [exact I|].
+      exists rest. split; [reflexivity|]. intros _ H. lia.
+    - cbn [pool_stream] in Hrun.
+      destruct (body_read rest sizes kleft io_chunk) as [[[[d rest'] sizes'] kleft']|] eqn:Ebr.
+      2:{ injection Hrun as <- <-. split; [exact I|]. exists rest. split; [reflexivity|]. discriminate. }
+      destruct (body_read_some _ _ _ _ _ _ _ _ Hio Ebr) as (Hrest & Hdnil & _).
+      destruct d as [|x d].
+      + injection Hrun as <- <-. split; [exact I|]. exists []. split; [now rewrite (Hdnil eq_refl)|reflexivity].
+      + destruct (pool_stream f rest' sizes' kleft' r io_chunk (pos + Z.of_nat (length (x :: d))))
+          as [ws1 e1] eqn:Erec.
+        injection Hrun as <- <-. destruct (IH _ _ _ _ _ _ _ Erec) as (C1 & rem & R1 & R2).
+        split; [cbn [contiguous]; split; [reflexivity|exact C1]|].
+        exists rem. split.
+        * unfold delivered_bytes in *. cbn [map snd concat]. rewrite <- app_assoc, <- R1. exact Hrest.
+        * intros Eok Hf. apply R2; [exact Eok|]. rewrite Hrest, app_length in Hf. cbn [length] in Hf. lia.
+  Qed.
+
+  Lemma pool_stream_end : forall fuel rest sizes kleft r pos ws e,
+    (length rest < fuel)%nat ->
+    pool_stream fuel rest sizes kleft r io_chunk pos = (ws, e) ->
+    match kleft with
+    | None => e = AOk
+    | Some k => if k <=? Z.of_nat (length rest) then exists c, e = AFault r c else e = AOk
+    end.
+  Proof.
+    induction fuel as [|f IH]; intros rest sizes kleft r pos ws e Hf Hrun; [lia|].
+    cbn [pool_stream] in Hrun.
+    destruct (body_read rest sizes kleft io_chunk) as [[[[d rest'] sizes'] kleft']|] eqn:Ebr.
+    2:{ injection Hrun as <- <-. apply body_read_none in Ebr as (k & -> & Hk).
+        destruct (k <=? Z.of_nat (length rest)) eqn:E; [eauto|lia]. }
+    destruct (body_read_some _ _ _ _ _ _ _ _ Hio Ebr) as (Hrest & Hdnil & Hk).
+    destruct d as [|x d].
+    - injection Hrun as <- <-. rewrite (Hdnil eq_refl) in *. destruct kleft as [k|]; [|reflexivity].
+      destruct Hk as (Hk0 & _). cbn [length]. destruct (k <=? Z.of_nat 0) eqn:E; [lia|reflexivity].
+    - destruct (pool_stream f rest' sizes' kleft' r io_chunk (pos + Z.of_nat (length (x :: d))))
+        as [ws1 e1] eqn:Erec.
+      injection Hrun as <- <-.
+      assert (Hf' : (length rest' < f)%nat).
+      { rewrite Hrest, app_length in Hf. cbn [length] in Hf. lia. }
+      specialize (IH _ _ _ _ _ _ _ Hf' Erec).
+      assert (Hlen : Z.of_nat (length rest) = Z.of_nat (length (x :: d)) + Z.of_nat (length rest')).
+      { rewrite Hrest, app_length. lia. }
+      destruct kleft as [k|].
+      + destruct Hk as (Hk0 & -> & Hk2).
+        destruct (k - Z.of_nat (length (x :: d)) <=? Z.of_nat (length rest')) eqn:E1;
+          destruct (k <=? Z.of_nat (length rest)) eqn:E2; try exact IH; lia.
+      + subst kleft'. exact IH.
+  Qed.
+End PoolStream.
+
+Lemma pool_attempt_spec body offset io_chunk f sizes ws e :
+  1 <= io_chunk -> pool_attempt body offset io_chunk f sizes = (ws, e) ->
+  contiguous offset ws /\
+  (exists rem, body = delivered_bytes ws ++ rem /\ (e = AOk -> rem = [])) /\
+  (if fires f (Z.of_nat (length body)) then exists c, e = AFault (retryable_of f) c else e = AOk).
+Proof.
+  intros Hio Hrun. destruct f as [|r|k r]; cbn [pool_attempt fires retryable_of] in *.
+  - destruct (pool_stream_spec io_chunk Hio _ _ _ _ _ _ _ _ Hrun) as (C & rem & R1 & R2).
+    split; [exact C|]. split.
+    + exists rem. split; [exact R1|]. intros E. apply R2; [exact E|lia].
+    + exact (pool_stream_end io_chunk Hio _ _ _ None _ _ _ _ (Nat.lt_succ_diag_r (length body)) Hrun).
+  - injection Hrun as <- <-. split; [exact I|]. split; [|eauto].
+    exists body. split; [reflexivity|discriminate].
+  - destruct (pool_stream_spec io_chunk Hio _ _ _ _ _ _ _ _ Hrun) as (C & rem & R1 & R2).
+    split; [exact C|]. split.
+    + exists rem. split; [exact R1|]. intros E. apply R2; [exact E|lia].
+    + exact (pool_stream_end io_chunk Hio _ _ _ (Some k) _ _ _ _ (Nat.lt_succ_diag_r (length body)) Hrun).
+Qed.
+
+Section PoolJob.
+  Variable obj : list Z.
+  Variables start len io_chunk : Z.
+  Hypothesis Hio : 1 <= io_chunk.
+  Hypothesis Hin : in_object obj start len.
+
+  Lemma pool_attempts_spec : forall left faults reads ws n o,
+    pool_attempts left (range_bytes obj start len) start io_chunk faults reads = (ws, n, o) ->
+    consistent obj ws /\ (n <= left)%nat /\
+    (o = Ok -> forall p, start <= p < start + len -> covered ws p).
+  Proof.
+    induction left as [|l IH]; intros faults reads ws n o Hrun.
+    - cbn [pool_attempts] in Hrun. injection Hrun as <- <- <-.
+      split; [constructor|]. split; [lia|discriminate].
+    - cbn [pool_attempts] in Hrun.
+      destruct (pool_attempt (range_bytes obj start len) start io_chunk (hd NoFault faults) (hd [] reads))
+        as [ws1 e] eqn:Eat.
+      destruct (pool_attempt_spec _ _ _ _ _ _ _ Hio Eat) as (C & (rem & R1 & R2) & _).
+      pose proof (attempt_deliveries_consistent obj start len ws1 rem Hin C R1) as Hc1.
+      destruct e as [| |r cur].
+      + injection Hrun as <- <- <-. split; [exact Hc1|]. split; [lia|]. intros _ p Hp.
+        rewrite (contiguous_chunks _ start C). apply chunks_cover.
+        change (concat (map snd ws1)) with (delivered_bytes ws1).
+        rewrite (R2 eq_refl), app_nil_r in R1. rewrite <- R1.
+        destruct Hin as (H0 & H1 & H2).
+        change (blen (range_bytes obj start len)) with (Z.of_nat (length (range_bytes obj start len))).
+        rewrite range_bytes_length by assumption. exact Hp.
+      + injection Hrun as <- <- <-. split; [exact Hc1|]. split; [lia|discriminate].
+      + destruct r.
+        * destruct (pool_attempts l (range_bytes obj start len) start io_chunk (tl faults) (tl reads))
+            as [[ws2 n2] o2] eqn:Erec.
+          injection Hrun as <- <- <-. destruct (IH _ _ _ _ _ Erec) as (I1 & I2 & I3).
+          split; [apply Forall_app; split; assumption|]. split; [lia|].
+          intros E p Hp. eapply covered_incl; [|exact (I3 E p Hp)].
+          intros x Hx. apply in_or_app. now right.
+        * injection Hrun as <- <- <-. split; [exact Hc1|]. split; [lia|discriminate].
+  Qed.
+
+  Lemma pool_attempts_succeed : forall left faults reads ws n o,
+    Forall (fun f => fires f len = true -> retryable_of f = true) faults ->
+    (length (filter (fun f => fires f len) faults) < left)%nat ->
+    pool_attempts left (range_bytes obj start len) start io_chunk faults reads = (ws, n, o) ->
+    o = Ok.
+  Proof.
+    assert (Hlen : Z.of_nat (length (range_bytes obj start len)) = len).
+    { destruct Hin as (H0 & H1 & H2). now apply range_bytes_length. }
+    induction left as [|l IH]; intros faults reads ws n o Hall Hcount Hrun; [lia|].
+    cbn [pool_attempts] in Hrun.
+    destruct (pool_attempt (range_bytes obj start len) start io_chunk (hd NoFault faults) (hd [] reads))
+      as [ws1 e] eqn:Eat.
+    destruct (pool_attempt_spec _ _ _ _ _ _ _ Hio Eat) as (_ & _ & Hend). rewrite Hlen in Hend.
+    destruct faults as [|f fs]; cbn [hd tl] in *.
+    - cbn [fires] in Hend. subst e. now injection Hrun as _ _ <-.
+    - inversion Hall as [|? ? Hf Hfs]; subst. cbn [filter] in Hcount.
+      destruct (fires f len) eqn:E.
+      + destruct Hend as [c ->]. rewrite (Hf eq_refl) in Hrun. cbn [length] in Hcount.
+        destruct (pool_attempts l (range_bytes obj start len) start io_chunk fs (tl reads))
+          as [[ws2 n2] o2] eqn:Erec.
+        injection Hrun as _ _ <-. apply (IH _ _ _ _ _ Hfs ltac:(lia) Erec).
+      + subst e. now injection Hrun as _ _ <-.
+  Qed.
+End PoolJob.
+
+Lemma pool_history mx obj io_chunk parts sched :
+  interleaving (map (fun p => fst (fst (pool_job obj io_chunk mx p))) parts)
+    (merge sched (map (fun j : list entry * nat * outcome => fst (fst j))
+                      (map (pool_job obj io_chunk mx) parts))).
+Proof. rewrite map_map. apply merge_interleaving. Qed.
+
+(** The pool's temp file: success implies it holds exactly the object,
+    whatever the interleaving of the workers' writes. *)
+Theorem pool_success_exact mx obj thr chunk io_chunk fs rs sched :
+  0 < chunk -> 1 <= io_chunk ->
+  let r := pool_download_with mx obj thr chunk io_chunk fs rs sched in
+  dl_out r = DlOk -> dl_content r = Some obj.
+Proof.
+  intros Hc Hio. unfold pool_download_with, pool_allocate.
+  destruct (blen obj <=? 0) eqn:Esz; [cbn [dl_out]; discriminate|].
+  pose proof (pool_history mx obj io_chunk
+                (plan_parts (blen obj) (dl_plan (blen obj) thr chunk) fs rs) sched) as Hil.
+  pose proof (plan_parts_scripted obj thr chunk fs rs Hc) as Hs.
+  pose proof (plan_parts_tile obj thr chunk fs rs Hc) as Htl.
+  set (parts := plan_parts (blen obj) (dl_plan (blen obj) thr chunk) fs rs) in *.
+  set (h := merge sched _) in *.
+  cbv zeta. destruct (forallb _ (map (pool_job obj io_chunk mx) parts)) eqn:Eok;
+    cbn [dl_out dl_content]; [intros _|discriminate].
+  f_equal. rewrite Forall_forall in Hs. rewrite forallb_forall in Eok.
+  assert (Hjob : forall q, In q parts ->
+            consistent obj (fst (fst (pool_job obj io_chunk mx q))) /\
+            forall p, p_start q <= p < p_start q + p_len q ->
+                      covered (fst (fst (pool_job obj io_chunk mx q))) p).
+  { intros q Hq. specialize (Eok _ (in_map _ _ _ Hq)). unfold pool_job in *.
+    destruct (pool_attempts (Z.to_nat mx) (range_bytes obj (p_start q) (p_len q)) (p_start q) io_chunk
+                            (p_faults q) (p_reads q)) as [[ws n] o] eqn:Ej.
+    destruct (pool_attempts_spec obj _ _ io_chunk Hio (Hs q Hq) _ _ _ _ _ _ Ej) as (J1 & _ & J3).
+    cbn [fst snd] in *. split; [exact J1|]. apply J3. destruct o; try discriminate Eok. reflexivity. }
+  apply write_all_exact.
+  - apply (interleaving_Forall _ _ _ _ Hil). rewrite Forall_map. apply Forall_forall.
+    intros q Hq. apply (Hjob q Hq).
+  - intros p Hp. destruct (Htl p Hp) as (q & Hq & Hin).
+    destruct (proj2 (Hjob q Hq) p Hin) as (e & He & Hi). exists e. split; [|exact Hi].
+    apply (interleaving_In _ _ _ Hil (fst (fst (pool_job obj io_chunk mx q)))); [|exact He].
+    now apply (in_map (fun p => fst (fst (pool_job obj io_chunk mx p)))).
+  - rewrite repeat_length. unfold blen. lia.
+Qed.
+
+(** The pool succeeds for a non-empty object under fewer than max_attempts
+    retryable faults per job, and never makes more than max_attempts requests
+    for a job. *)
+Theorem pool_scripted_succeeds mx obj thr chunk io_chunk fs rs sched :
+  0 < chunk -> 1 <= io_chunk -> 0 < blen obj ->
+  Forall (part_faults_ok mx) (plan_parts (blen obj) (dl_plan (blen obj) thr chunk) fs rs) ->
+  dl_out (pool_download_with mx obj thr chunk io_chunk fs rs sched) = DlOk.
+Proof.
+  intros Hc Hio Hsz Hscr. unfold pool_download_with, pool_allocate.
+  replace (blen obj <=? 0) with false by lia.
+  pose proof (plan_parts_scripted obj thr chunk fs rs Hc) as Hs.
+  set (parts := plan_parts (blen obj) (dl_plan (blen obj) thr chunk) fs rs) in *.
+  cbv zeta. cbn [dl_out].
+  replace (forallb _ (map (pool_job obj io_chunk mx) parts)) with true; [reflexivity|].
+  symmetry. apply forallb_forall. intros j Hj. apply in_map_iff in Hj. destruct Hj as (q & <- & Hq).
+  rewrite Forall_forall in Hs, Hscr. destruct (Hscr q Hq) as [Hf Hn]. unfold pool_job.
+  destruct (pool_attempts (Z.to_nat mx) (range_bytes obj (p_start q) (p_len q)) (p_start q) io_chunk
+                          (p_faults q) (p_reads q)) as [[ws n] o] eqn:Ej.
+  assert (Hn' : (length (filter (fun f => fires f (p_len q)) (p_faults q)) < Z.to_nat mx)%nat) by lia.
+  cbn [snd]. rewrite (pool_attempts_succeed obj _ _ io_chunk Hio (Hs q Hq) _ _ _ _ _ _ Hf Hn' Ej).
+  reflexivity.
+Qed.
+
+Theorem pool_attempt_bound mx obj io_chunk p :
+  1 <= io_chunk -> part_scripted obj p ->
+  Z.of_nat (snd (fst (pool_job obj io_chunk mx p))) <= Z.max 0 mx.
+Proof.
+  intros Hio Hs. unfold pool_job.
+  destruct (pool_attempts (Z.to_nat mx) (range_bytes obj (p_start p) (p_len p)) (p_start p) io_chunk
+                          (p_faults p) (p_reads p)) as [[ws n] o] eqn:Ej.
+  destruct (pool_attempts_spec obj _ _ io_chunk Hio Hs _ _ _ _ _ _ Ej) as (_ & J2 & _).
+  cbn [fst snd]. lia.
+Qed.
+
+(* ------------------------------------------------------------------ *)
+(** * For the record: the non-seekable destination before the repairs *)
+
+(** Before the fixes for F3/F4 a single GET wrote every chunk straight to the
+    stream and ranged downloads went through the old queue. *)
+Definition old_stream_content (obj : list Z) (cfg : dl_cfg) (fs : list (list fault))
+    (rs : list (list (list Z))) (sched : list nat) : list Z :=
+  let h := merge sched (part_deliveries obj (c_io_chunk cfg) (c_attempts cfg)
+                                        (manager_parts obj cfg fs rs)) in
+  if blen obj <? c_threshold cfg then old_immediate_run [] h
+  else concat (map snd (old_emitted h)).
+
+(** F3: "abcdefgh", two ranges [0,5) [5,8); the first request delivers "abc"
+    (a 3-byte read), fails, is retried and delivers "abcde" in one chunk. *)
+Definition w3_cfg : dl_cfg := mkCfg 1 5 5 2.
+Definition w3_faults : list (list fault) := [[FaultAfter 3 true]].
+Definition w3_reads : list (list (list Z)) := [[[3]]].
+
+(** F4: the same object by a single GET that fails after 3 bytes. *)
+Definition w4_cfg : dl_cfg := mkCfg 100 100 100 2.
+Definition w4_faults : list (list fault) := [[FaultAfter 3 true]].
+
+Lemma w3_scripts_ok : cfg_ok w3_cfg /\ scripts_ok w_obj w3_cfg w3_faults w3_reads.
+Proof.
+  split; [unfold cfg_ok; cbn; lia|]. unfold scripts_ok.
+  set (ps := manager_parts w_obj w3_cfg w3_faults w3_reads). vm_compute in ps. subst ps.
+  repeat constructor; cbn; intros; try reflexivity; try discriminate.
+Qed.
+
+Lemma w4_scripts_ok : cfg_ok w4_cfg /\ scripts_ok w_obj w4_cfg w4_faults [].
+Proof.
+  split; [unfold cfg_ok; cbn; lia|]. unfold scripts_ok.
+  set (ps := manager_parts w_obj w4_cfg w4_faults []). vm_compute in ps. subst ps.
+  repeat constructor; cbn; intros; try reflexivity; try discriminate.
+Qed.
+
+(* ------------------------------------------------------------------ *)
+(** * Single GET or ranged: what the request log shows *)
+
+Lemma map_snd_combine_seq {A} : forall (l : list A) s, map snd (combine (seq s (length l)) l) = l.
+Proof. induction l as [|x l IH]; intros s; cbn [length seq combine map snd]; [reflexivity|now rewrite IH]. Qed.
+
+Lemma plan_parts_ranges size plan fs rs : map p_range (plan_parts size plan fs rs) = plan.
+Proof.
+  unfold plan_parts. rewrite map_map.
+  transitivity (map snd (combine (seq 0 (length plan)) plan)); [|apply map_snd_combine_seq].
+  apply map_ext. intros [i r].
+  now destruct (mk_part_fields size fs rs i r) as (_ & _ & -> & _).
+Qed.
+
+Theorem manager_plan_modes kind init obj cfg fs rs sched :
+  map fst (dl_parts (manager_download kind init obj cfg fs rs sched)) =
+  if blen obj <? c_threshold cfg then [None]
+  else map Some (download_ranges (blen obj) (c_chunk cfg)).
+Proof.
+  rewrite manager_dl_parts, map_map. cbn [fst]. unfold manager_parts.
+  rewrite (plan_parts_ranges (blen obj)). reflexivity.
+Qed.
+
+(** A worked download (non-vacuity): 10 bytes, threshold 4, chunk 3, io chunk
+    2, 3 attempts; range 1 fails after 2 bytes (1-byte reads) and then on the
+    request, range 3 fails before its first byte; deliveries interleaved. *)
+Definition ex_obj10 : list Z := [10; 11; 12; 13; 14; 15; 16; 17; 18; 19].
+Definition ex_cfg : dl_cfg := mkCfg 4 3 2 3.
+Definition ex_faults : list (list fault) :=
+  [[]; [FaultAfter 2 true; FaultOnRequest true]; []; [FaultAfter 0 true]].
+Definition ex_reads : list (list (list Z)) := [[]; [[1; 1]]; [[1]]; []].
+Definition ex_sched : list nat := [3; 1; 2; 1; 0; 2; 1; 3; 1; 0]%nat.
+
+Lemma ex_scripts_ok : cfg_ok ex_cfg /\ scripts_ok ex_obj10 ex_cfg ex_faults ex_reads.
+Proof.
+  split; [unfold cfg_ok; cbn; lia|]. unfold scripts_ok.
+  set (ps := manager_parts ex_obj10 ex_cfg ex_faults ex_reads). vm_compute in ps. subst ps.
+  repeat constructor; cbn; intros; try reflexivity; try discriminate.
+Qed.
